@@ -76,6 +76,13 @@ fn span_ok(input: &str, s: cooklang::Span) -> bool {
 /// with their trimmed `|`-separated ingredient names"). `None` = the model rejects
 /// the file. Category names are compared modulo surrounding white space.
 fn model_parse(input: &str) -> Option<Vec<(String, Vec<Vec<String>>)>> {
+    model_parse_with(input, true)
+}
+
+/// `strict_category`: reject a `|` inside a category header, as the pinned implementation does.
+/// The statement does not demand that, so a result that keeps such a name verbatim is compared
+/// with the lenient model instead of being reported.
+fn model_parse_with(input: &str, strict_category: bool) -> Option<Vec<(String, Vec<Vec<String>>)>> {
     let mut cats: Vec<(String, Vec<Vec<String>>)> = Vec::new();
     let mut names_seen: Vec<String> = Vec::new();
     for line in input.lines() {
@@ -86,7 +93,7 @@ fn model_parse(input: &str) -> Option<Vec<(String, Vec<Vec<String>>)>> {
         let line = line.trim();
         if line.len() >= 2 && line.starts_with('[') && line.ends_with(']') {
             let name = &line[1..line.len() - 1];
-            if name.contains('|') || cats.iter().any(|c| c.0 == name) {
+            if (strict_category && name.contains('|')) || cats.iter().any(|c| c.0 == name) {
                 return None;
             }
             cats.push((name.to_string(), Vec::new()));
@@ -269,7 +276,7 @@ fn execute_inner(sc: &AisleScenario) -> (Vec<Violation>, AisleStats) {
             }
         }
     }
-    let model = model_parse(text);
+    let model = model_parse(text).or_else(|| if parsed.is_ok() { model_parse_with(text, false) } else { None });
     let conf = match parsed {
         Err(e) => {
             st.parse_err = Some(format!("{e}"));
